@@ -43,4 +43,13 @@ def cases(tier, seed=0):
                         continue
                     for semi in rotations(kind, 1):
                         out.append(make_case(PROP, "marginal", kind, 2, 2, Rc, Rx, semi=semi, timeout=1800, extra="t"))
+    # constructor / history variants: built from the precision only; update_Sigma before the operation
+    for kind in KINDS:
+        dd = (2, 2) if kind.startswith("identity") else (2, 1)
+        for var in (("viaL",), ("upd",)):
+            if kind == "nncontrol" and var == ("viaL",):
+                continue
+            sm = var + ((("Sx",) if dd == (2, 2) else ()))
+            out.append(make_case(PROP, "marginal", kind, dd[0], dd[1], 1, 1, semi=sm, timeout=600))
+            out.append(make_case(PROP, "marginal", kind, 1, 1, 1 if kind == "nncontrol" else 2, 1, semi=var, timeout=600))
     return out
